@@ -708,10 +708,8 @@ func c17OpSeq(prop string, first, maxLen int) *explore.Scenario {
 					vsched.Quiesce()
 				}
 				for _, n := range []string{"b", "c"} {
-					if got := countStr(t.Disconnects, n); got < fails[n] {
-						if t.HasCallback { // (without a disconnect callback there is nothing to be told; the removal clauses still apply)
-							vsched.Fail(fam+"|no-disconnect-report", "after%s: %d connections of %s have failed, %d reports reached the disconnect callback", seq, fails[n], n, got)
-						}
+					if got := countStr(t.Disconnects, n); got < fails[n] && t.HasCallback { // (without a disconnect callback there is nothing to be told; the removal clauses still apply)
+						vsched.Fail(fam+"|no-disconnect-report", "after%s: %d connections of %s have failed, %d reports reached the disconnect callback", seq, fails[n], n, got)
 						return
 					}
 				}
